@@ -1627,17 +1627,22 @@ func (w *weaver) collect(s ast.Stmt) []acc {
 			visit(a, false)
 		}
 	case *ast.IfStmt:
-		if s.Init == nil {
-			visit(s.Cond, false)
+		if s.Init != nil {
+			out = append(out, w.collect(s.Init)...) // `if v, ok := shared[k]; ok`
 		}
+		visit(s.Cond, false)
 	case *ast.ForStmt:
-		if s.Init == nil {
-			visit(s.Cond, false)
+		if s.Init != nil {
+			out = append(out, w.collect(s.Init)...)
 		}
+		visit(s.Cond, false)
 	case *ast.RangeStmt:
 		visit(s.X, false)
 	case *ast.SwitchStmt:
-		if s.Init == nil {
+		if s.Init != nil {
+			out = append(out, w.collect(s.Init)...)
+		}
+		{
 			visit(s.Tag, false)
 			if len(s.Body.List) > 0 {
 				if cc := s.Body.List[0].(*ast.CaseClause); len(cc.List) > 0 {
@@ -1655,6 +1660,45 @@ func (w *weaver) collect(s ast.Stmt) []acc {
 				}
 			}
 		}
+	}
+	// annotations go before the statement: drop those that mention a variable
+	// the statement's own init clause declares
+	var init ast.Stmt
+	switch x := s.(type) {
+	case *ast.IfStmt:
+		init = x.Init
+	case *ast.ForStmt:
+		init = x.Init
+	case *ast.SwitchStmt:
+		init = x.Init
+	}
+	if init != nil {
+		kept := out[:0]
+		for _, a := range out {
+			local := false
+			ast.Inspect(a.expr, func(n ast.Node) bool {
+				if idn, ok := n.(*ast.Ident); ok {
+					if o := w.info().Uses[idn]; o != nil && o.Pos() >= init.Pos() && o.Pos() <= init.End() {
+						local = true
+					}
+				}
+				return true
+			})
+			if a.idx != nil {
+				ast.Inspect(a.idx, func(n ast.Node) bool {
+					if idn, ok := n.(*ast.Ident); ok {
+						if o := w.info().Uses[idn]; o != nil && o.Pos() >= init.Pos() && o.Pos() <= init.End() {
+							local = true
+						}
+					}
+					return true
+				})
+			}
+			if !local {
+				kept = append(kept, a)
+			}
+		}
+		out = kept
 	}
 	return out
 }
